@@ -20,9 +20,17 @@ The statements are copied from /repo into callable functions on every run (`cons
 namespace DaeVerif.C03
 
 def OUTBOUND_CONTROL_PLANE_ROUTING : Nat := 0xFD
-def UDP_ROUTING_CACHE_TTL : Nat := 300000000
-def TCP_LOOKUP_RETRY_ATTEMPTS : Nat := 3
-def TCP_LOOKUP_RETRY_DELAY : Nat := 2000000
+
+/-- tuning constants of the relay the property does not fix; the driver reads them from the code on every
+run (`cfg` op), the theorems hold for every value -/
+structure RelayCfg where
+  /-- `UdpRoutingResultCacheTtl` (ns) -/
+  ttl : Nat := 300000000
+  /-- `tcpRoutingLookupRetryAttempts` -/
+  attempts : Nat := 3
+  /-- `tcpRoutingLookupRetryDelay` (ns) -/
+  delay : Nat := 2000000
+deriving DecidableEq, Repr
 
 /-- `&bpfRoutingResult{Outbound: OutboundControlPlaneRouting}` -/
 def fallbackRecord : RResult := ⟨0, 0, zeros 6, OUTBOUND_CONTROL_PLANE_ROUTING, zeros 16, 0, 0⟩
@@ -31,8 +39,15 @@ def fallbackRecord : RResult := ⟨0, 0, zeros 6, OUTBOUND_CONTROL_PLANE_ROUTING
 def tcpConsumer (kernel : Option RResult) : RResult := kernel.getD fallbackRecord
 
 /-- time `handleConn` spends in the retry loop -/
-def tcpConsumerDelay (kernel : Option RResult) : Nat :=
-  if kernel.isSome then 0 else (TCP_LOOKUP_RETRY_ATTEMPTS - 1) * TCP_LOOKUP_RETRY_DELAY
+def tcpConsumerDelay (cfg : RelayCfg) (kernel : Option RResult) : Nat :=
+  if kernel.isSome then 0 else (cfg.attempts - 1) * cfg.delay
+
+/-- DNS ingress fast path (UDP to port 53 with a DNS payload): the record the DNS controller receives;
+`soMark` = `c.soMarkFromDae` replaces a zero mark -/
+def dnsConsumer (soMark : Nat) (kernel : Option RResult) : RResult :=
+  match kernel with
+  | some r => if r.mark = 0 then { r with mark := soMark } else r
+  | none => { fallbackRecord with mark := soMark }
 
 abbrev AddrPort := Nat × Nat
 
@@ -62,18 +77,18 @@ def fallbackKey (src dst : AddrPort) : Option EKey :=
   if sniffPort dst.2 || sniffPort src.2 then some ⟨src, some dst⟩ else none
 
 /-- `GetCachedRoutingResult(dst, UDP)` on the endpoint under `k` (none: no such endpoint / miss) -/
-def cacheProbe (u : UState) (k : EKey) (dst : AddrPort) : Option CacheEnt :=
+def cacheProbe (cfg : RelayCfg) (u : UState) (k : EKey) (dst : AddrPort) : Option CacheEnt :=
   match alookup u.eps k with
   | some (some e) =>
-    if e.proto = IPPROTO_UDP ∧ e.dst = dst ∧ u.ut - e.stamp ≤ UDP_ROUTING_CACHE_TTL then some e else none
+    if e.proto = IPPROTO_UDP ∧ e.dst = dst ∧ u.ut - e.stamp ≤ cfg.ttl then some e else none
   | _ => none
 
-def cacheLookup (u : UState) (src dst : AddrPort) : Option CacheEnt :=
-  match cacheProbe u ⟨src, none⟩ dst with
+def cacheLookup (cfg : RelayCfg) (u : UState) (src dst : AddrPort) : Option CacheEnt :=
+  match cacheProbe cfg u ⟨src, none⟩ dst with
   | some e => some e
   | none =>
     match fallbackKey src dst with
-    | some k => cacheProbe u k dst
+    | some k => cacheProbe cfg u k dst
     | none => none
 
 /-- `UpdateCachedRoutingResult` on the first existing endpoint of (primary, fallback) -/
@@ -91,8 +106,8 @@ structure UdpUse where
   rr : RResult
   fresh : Bool
 
-def udpConsumer (scopeSensitive : Bool) (u : UState) (src dst : AddrPort) (kernel : Option RResult) : UdpUse :=
-  match (if scopeSensitive then none else cacheLookup u src dst) with
+def udpConsumer (cfg : RelayCfg) (scopeSensitive : Bool) (u : UState) (src dst : AddrPort) (kernel : Option RResult) : UdpUse :=
+  match (if scopeSensitive then none else cacheLookup cfg u src dst) with
   | some e => ⟨u, e.rr, false⟩
   | none =>
     match kernel with
@@ -114,9 +129,9 @@ theorem mem_areplace {α β} [DecidableEq α] (m : List (α × β)) (k : α) (v 
   · simp only [hk, if_true]; exact Or.inr (by first | rfl | trivial)
   · simp only [hk, if_false]; exact Or.inl hq
 
-theorem cacheProbe_sound (hist) (u : UState) (hs : CacheSound hist u) (k : EKey) (dst : AddrPort) (e : CacheEnt)
-    (h : cacheProbe u k dst = some e) :
-    e.dst = dst ∧ e.stamp ≤ u.ut ∧ u.ut - e.stamp ≤ UDP_ROUTING_CACHE_TTL ∧ hist e.stamp k.src dst = some e.rr := by
+theorem cacheProbe_sound (cfg : RelayCfg) (hist) (u : UState) (hs : CacheSound hist u) (k : EKey) (dst : AddrPort) (e : CacheEnt)
+    (h : cacheProbe cfg u k dst = some e) :
+    e.dst = dst ∧ e.stamp ≤ u.ut ∧ u.ut - e.stamp ≤ cfg.ttl ∧ hist e.stamp k.src dst = some e.rr := by
   unfold cacheProbe at h
   split at h
   · rename_i e' he'
@@ -128,18 +143,18 @@ theorem cacheProbe_sound (hist) (u : UState) (hs : CacheSound hist u) (k : EKey)
     · cases h
   · cases h
 
-theorem cacheLookup_sound (hist) (u : UState) (hs : CacheSound hist u) (src dst : AddrPort) (e : CacheEnt)
-    (h : cacheLookup u src dst = some e) :
-    e.stamp ≤ u.ut ∧ u.ut - e.stamp ≤ UDP_ROUTING_CACHE_TTL ∧ hist e.stamp src dst = some e.rr := by
+theorem cacheLookup_sound (cfg : RelayCfg) (hist) (u : UState) (hs : CacheSound hist u) (src dst : AddrPort) (e : CacheEnt)
+    (h : cacheLookup cfg u src dst = some e) :
+    e.stamp ≤ u.ut ∧ u.ut - e.stamp ≤ cfg.ttl ∧ hist e.stamp src dst = some e.rr := by
   unfold cacheLookup at h
   split at h
   · rename_i e' he'
     cases h
-    have := cacheProbe_sound hist u hs ⟨src, none⟩ dst e he'
+    have := cacheProbe_sound cfg hist u hs ⟨src, none⟩ dst e he'
     exact ⟨this.2.1, this.2.2.1, this.2.2.2⟩
   · split at h
     · rename_i k hk
-      have := cacheProbe_sound hist u hs k dst e h
+      have := cacheProbe_sound cfg hist u hs k dst e h
       have hksrc : k.src = src := by
         unfold fallbackKey at hk
         split at hk
@@ -180,12 +195,12 @@ theorem cacheStore_ut (u : UState) (src dst : AddrPort) (r : RResult) : (cacheSt
     · split <;> rfl
     · rfl
 
-theorem udpConsumer_cases (scope : Bool) (u : UState) (src dst : AddrPort) (kernel : Option RResult) :
-    (∃ e, scope = false ∧ cacheLookup u src dst = some e ∧ udpConsumer scope u src dst kernel = ⟨u, e.rr, false⟩) ∨
+theorem udpConsumer_cases (cfg : RelayCfg) (scope : Bool) (u : UState) (src dst : AddrPort) (kernel : Option RResult) :
+    (∃ e, scope = false ∧ cacheLookup cfg u src dst = some e ∧ udpConsumer cfg scope u src dst kernel = ⟨u, e.rr, false⟩) ∨
     (∃ r, kernel = some r ∧
-      udpConsumer scope u src dst kernel = ⟨if scope then u else cacheStore u src dst r, r, true⟩) ∨
-    (kernel = none ∧ udpConsumer scope u src dst kernel = ⟨u, fallbackRecord, false⟩) := by
-  cases scope <;> cases hc : cacheLookup u src dst <;> cases kernel <;> simp [udpConsumer, hc]
+      udpConsumer cfg scope u src dst kernel = ⟨if scope then u else cacheStore u src dst r, r, true⟩) ∨
+    (kernel = none ∧ udpConsumer cfg scope u src dst kernel = ⟨u, fallbackRecord, false⟩) := by
+  cases scope <;> cases hc : cacheLookup cfg u src dst <;> cases kernel <;> simp [udpConsumer, hc]
 
 end DaeVerif.C03
 
@@ -193,22 +208,22 @@ namespace DaeVerif.C03.Props
 open DaeVerif.C03
 
 /-- **The record the UDP relay works with is the kernel's record of this flow at some instant within
-the last 300 ms — or the userspace-routing fallback when the kernel holds none now.**  `hist t src dst`
+the last `UdpRoutingResultCacheTtl` (300 ms as shipped; `cfg.ttl`, any value) — or the userspace-routing fallback when the kernel holds none now.**  `hist t src dst`
 is what `RetrieveRoutingResult(src, dst, UDP)` answers at time `t` (`kernel` = now); the per-endpoint
 cache never serves a record of another destination, nor one older than `UdpRoutingResultCacheTtl`;
 with metadata-dependent routing (`scope`) the cache is not used at all; and the cache stays sound. -/
-theorem udp_relay_record_is_at_most_cache_ttl_old (hist : Nat → AddrPort → AddrPort → Option RResult)
+theorem udp_relay_record_is_at_most_cache_ttl_old (cfg : RelayCfg) (hist : Nat → AddrPort → AddrPort → Option RResult)
     (scope : Bool) (u : UState) (src dst : AddrPort) (kernel : Option RResult)
     (hs : CacheSound hist u) (hk : hist u.ut src dst = kernel) :
-    ((∃ t, t ≤ u.ut ∧ u.ut - t ≤ UDP_ROUTING_CACHE_TTL ∧
-        hist t src dst = some (udpConsumer scope u src dst kernel).rr) ∨
-      (kernel = none ∧ (udpConsumer scope u src dst kernel).rr = fallbackRecord)) ∧
-    ((udpConsumer scope u src dst kernel).fresh = true → kernel = some (udpConsumer scope u src dst kernel).rr) ∧
-    (scope = true → (udpConsumer scope u src dst kernel).u = u ∧
-      (udpConsumer scope u src dst kernel).rr = kernel.getD fallbackRecord) ∧
-    (udpConsumer scope u src dst kernel).u.ut = u.ut ∧ CacheSound hist (udpConsumer scope u src dst kernel).u := by
-  rcases udpConsumer_cases scope u src dst kernel with ⟨e, hsc, hc, hx⟩ | ⟨r, hr, hx⟩ | ⟨hn, hx⟩
-  · have := cacheLookup_sound hist u hs src dst e hc
+    ((∃ t, t ≤ u.ut ∧ u.ut - t ≤ cfg.ttl ∧
+        hist t src dst = some (udpConsumer cfg scope u src dst kernel).rr) ∨
+      (kernel = none ∧ (udpConsumer cfg scope u src dst kernel).rr = fallbackRecord)) ∧
+    ((udpConsumer cfg scope u src dst kernel).fresh = true → kernel = some (udpConsumer cfg scope u src dst kernel).rr) ∧
+    (scope = true → (udpConsumer cfg scope u src dst kernel).u = u ∧
+      (udpConsumer cfg scope u src dst kernel).rr = kernel.getD fallbackRecord) ∧
+    (udpConsumer cfg scope u src dst kernel).u.ut = u.ut ∧ CacheSound hist (udpConsumer cfg scope u src dst kernel).u := by
+  rcases udpConsumer_cases cfg scope u src dst kernel with ⟨e, hsc, hc, hx⟩ | ⟨r, hr, hx⟩ | ⟨hn, hx⟩
+  · have := cacheLookup_sound cfg hist u hs src dst e hc
     rw [hx]
     refine ⟨Or.inl ⟨e.stamp, this.1, this.2.1, this.2.2⟩, ?_, ?_, rfl, hs⟩
     · intro h; cases h
@@ -228,12 +243,30 @@ theorem udp_relay_record_is_at_most_cache_ttl_old (hist : Nat → AddrPort → A
     exact ⟨Or.inr ⟨rfl, rfl⟩, (by intro h; cases h), fun _ => ⟨rfl, rfl⟩, rfl, hs⟩
 
 /-- **The TCP relay works with exactly the kernel's record**, and with the userspace-routing fallback
-only when `RetrieveRoutingResult` finds none (after `3 − 1` waits of 2 ms). -/
-theorem tcp_relay_record_is_the_kernel_record (kernel : Option RResult) :
-    (∀ r, kernel = some r → tcpConsumer kernel = r ∧ tcpConsumerDelay kernel = 0) ∧
-    (kernel = none → tcpConsumer kernel = fallbackRecord ∧ tcpConsumerDelay kernel = 4000000) := by
+only when `RetrieveRoutingResult` finds none (after `attempts − 1` waits of `delay`: 2 × 2 ms as shipped). -/
+theorem tcp_relay_record_is_the_kernel_record (cfg : RelayCfg) (kernel : Option RResult) :
+    (∀ r, kernel = some r → tcpConsumer kernel = r ∧ tcpConsumerDelay cfg kernel = 0) ∧
+    (kernel = none → tcpConsumer kernel = fallbackRecord ∧
+      tcpConsumerDelay cfg kernel = (cfg.attempts - 1) * cfg.delay) := by
   refine ⟨?_, ?_⟩
   · intro r h; subst h; exact ⟨rfl, rfl⟩
   · intro h; subst h; exact ⟨rfl, rfl⟩
+
+/-- **The DNS controller gets the kernel's record of the datagram** (outbound, must, DSCP, MAC, process
+exactly; the mark too unless it is 0, which becomes dae's own socket mark), and the userspace-routing
+fallback carrying dae's mark only when the kernel holds no record. -/
+theorem dns_relay_record_is_the_kernel_record (soMark : Nat) (kernel : Option RResult) :
+    (∀ r, kernel = some r →
+      (dnsConsumer soMark kernel).outbound = r.outbound ∧ (dnsConsumer soMark kernel).must = r.must ∧
+      (dnsConsumer soMark kernel).dscp = r.dscp ∧ (dnsConsumer soMark kernel).mac = r.mac ∧
+      (dnsConsumer soMark kernel).pname = r.pname ∧ (dnsConsumer soMark kernel).pid = r.pid ∧
+      (dnsConsumer soMark kernel).mark = if r.mark = 0 then soMark else r.mark) ∧
+    (kernel = none → dnsConsumer soMark kernel = { fallbackRecord with mark := soMark }) := by
+  refine ⟨?_, ?_⟩
+  · intro r h; subst h
+    unfold dnsConsumer
+    dsimp only
+    split <;> simp_all
+  · intro h; subst h; rfl
 
 end DaeVerif.C03.Props
